@@ -12,6 +12,7 @@ evaluated by the Gallina model with the Gallina AES inside Coq, compared bit for
 import json, os
 from harness import common as C
 from harness.common import cbytes, clist, cnat
+from harness.props import pyfun_util
 
 PID = "C13"
 M2S, S2M = 1, 2
@@ -689,6 +690,11 @@ def run(ctx):
     ]
     proofs_ok, detail = ctx.check_proofs(lib_targets=["theories/Lib/Bytes.vo", "theories/Lib/Xor.vo", "theories/Lib/Aes.vo",
                                                       "theories/Lib/Ccm.vo", "theories/Lib/Cmac.vo"])
+    # generate_nonce regenerated from the source and proved equal to the model's nonce_of
+    # (harness/translators/pyfun.py, theories/C13/{Gen,GenEq,PropertyGen}.v, design/PYTRANS.md)
+    gen = pyfun_util.check_generated(ctx, PID)
+    if not gen["ok"]:
+        proofs_ok, detail = False, (detail if not proofs_ok else str(gen["what"])) + gen["detail"]
     ctx.log("proofs:", proofs_ok, detail.splitlines()[0][:200])
 
     # ---- generation ---------------------------------------------------------
@@ -822,7 +828,7 @@ def run(ctx):
         {"sweep": sweeps[0], "ct": r1["sweep"][0].get("ct"), "not_rejected_bits": r1["sweep"][0].get("not_rejected")},
         {"capture": captures[0].get("kind"), "air": r1["capture"][0].get("air", [])[:2], "decryptor": r1["capture"][0].get("obs", [])[:2]},
     ]
-    ctx.cov["source_ties"] = [C.source_tie("whad/ble/crypto.py", 198, 310), C.source_tie("whad/ble/crypto.py", 390, 480),
+    ctx.cov["source_ties"] = ctx.cov.get("source_ties", []) + [C.source_tie("whad/ble/crypto.py", 198, 310), C.source_tie("whad/ble/crypto.py", 390, 480),
                               C.source_tie("whad/ble/crypto.py", 31, 38), C.source_tie("whad/ble/stack/llm/__init__.py", 656, 930),
                               C.source_tie("whad/ble/stack/llm/__init__.py", 231, 345), C.source_tie("whad/ble/stack/llm/__init__.py", 511, 526)]
     ctx.cov["correspondence"] = {"manager_cases": len(mgr_terms), "manager_bad": len(bad_m), "decryptor_cases": len(dec_terms), "decryptor_bad": len(bad_d),
